@@ -299,6 +299,47 @@ pub fn giants_space() -> ByteSpace {
     })
 }
 
+/// S6b: giants whose size is in a *count* rather than in one length field: very long runs of one header-only
+/// packet (a per-packet recursion or a 16-bit packet counter shows here) and SDES packets with a single chunk of
+/// more than 65 535 bytes of items (a 16-bit sum of item lengths shows here).
+pub const RUN_PTS: [u8; 10] = [200, 201, 202, 203, 204, 205, 206, 207, 192, 0];
+pub const RUN_COUNTS: [usize; 3] = [65_536, 65_537, 200_000];
+pub fn giants_runs_space() -> ByteSpace {
+    let runs = (RUN_PTS.len() * RUN_COUNTS.len()) as u64;
+    ByteSpace::new("S6b-giant-runs-and-chunks", runs + 6, move |idx, out| {
+        out.clear();
+        if idx < runs {
+            let pt = RUN_PTS[(idx % RUN_PTS.len() as u64) as usize];
+            let n = RUN_COUNTS[(idx / RUN_PTS.len() as u64) as usize];
+            out.reserve(n * 4);
+            for _ in 0..n {
+                out.extend_from_slice(&[0x80, pt, 0, 0]);
+            }
+        } else {
+            // one SDES chunk holding `items` items of `vlen` value bytes each (type CNAME/PRIV/NOTE), NUL, padding
+            let k = idx - runs;
+            let (items, vlen, ty) = [(258usize, 253usize, 1u8), (300, 255, 1), (1000, 255, 7), (300, 255, 8), (22_000, 1, 2), (33_000, 0, 3)][k as usize];
+            out.extend_from_slice(&[0x81, 202, 0, 0, 0x11, 0x22, 0x33, 0x44]);
+            for i in 0..items {
+                out.push(ty);
+                out.push(vlen as u8);
+                for j in 0..vlen {
+                    // PRIV: a prefix length that fits, then letters
+                    out.push(if ty == 8 && j == 0 { 3 } else { b'a' + ((i + j) % 26) as u8 });
+                }
+            }
+            out.push(0);
+            while out.len() % 4 != 0 {
+                out.push(0);
+            }
+            let words = out.len() / 4 - 1;
+            debug_assert!(words <= 0xFFFF);
+            out[2] = (words >> 8) as u8;
+            out[3] = words as u8;
+        }
+    })
+}
+
 /// S4: direct FCI parser inputs: every length 0..=40 x first byte (all) x second byte x fill.
 pub fn fci_raw_space() -> ByteSpace {
     let second = [0x00u8, 0x7F, 0x80, 0xFF];
